@@ -45,6 +45,59 @@ type scenario struct {
 	cquery   map[string][]string    // Request.Query as it arrives
 	chdrs    map[string][]string    // Request.Headers as they arrive
 	epMethod string
+	// backend url_pattern (default "/graphql"); when it embeds {tenant} the endpoint is
+	// /x/{tenant} and the value comes from params["Tenant"]
+	urlPattern string
+	// the client body stream delivers this prefix of body and then fails with the error
+	fault *bodyFault
+}
+
+type bodyFault struct {
+	prefix string
+	err    error
+}
+
+type faultReader struct {
+	rest []byte
+	err  error
+}
+
+func (f *faultReader) Read(p []byte) (int, error) {
+	if len(f.rest) == 0 {
+		return 0, f.err
+	}
+	n := copy(p, f.rest)
+	f.rest = f.rest[n:]
+	return n, nil
+}
+func (f *faultReader) Close() error { return nil }
+
+// what the client body is for the model: a stream that fails is not a JSON text
+func (sc *scenario) bodyClass() (string, map[string]interface{}) {
+	if sc.fault != nil {
+		return "BInvalid", nil
+	}
+	return classifyBody(sc.body)
+}
+
+func (sc *scenario) bodyReader() io.ReadCloser {
+	if sc.fault != nil {
+		return &faultReader{rest: []byte(sc.fault.prefix), err: sc.fault.err}
+	}
+	if sc.body == nil {
+		return nil
+	}
+	return io.NopCloser(strings.NewReader(*sc.body))
+}
+
+func (sc *scenario) endpointAndPattern() (string, string) {
+	if sc.urlPattern == "" {
+		return "/x", "/graphql"
+	}
+	if strings.Contains(sc.urlPattern, "{tenant}") {
+		return "/x/{tenant}", sc.urlPattern
+	}
+	return "/x", sc.urlPattern
 }
 
 type sentT struct {
@@ -142,9 +195,10 @@ func execute(sc *scenario) (o outcome, be *config.Backend) {
 		}
 	}()
 	svc := config.ServiceConfig{Version: config.ConfigVersion, Timeout: 5 * time.Second, Host: []string{"http://127.0.0.1:8081"}}
-	ep := &config.EndpointConfig{Endpoint: "/x", Method: sc.epMethod}
+	epPath, pattern := sc.endpointAndPattern()
+	ep := &config.EndpointConfig{Endpoint: epPath, Method: sc.epMethod}
 	ep.Backend = []*config.Backend{{
-		URLPattern:         "/graphql",
+		URLPattern:         pattern,
 		ExtraConfig:        config.ExtraConfig{graphql.Namespace: gqlExtra(sc)},
 		HeadersToPass:      append([]string(nil), sc.hdrAllow...),
 		QueryStringsToPass: append([]string(nil), sc.qsAllow...),
@@ -177,8 +231,8 @@ func execute(sc *scenario) (o outcome, be *config.Backend) {
 	for k, v := range sc.cquery {
 		req.Query[k] = append([]string(nil), v...)
 	}
-	if sc.body != nil {
-		req.Body = io.NopCloser(strings.NewReader(*sc.body))
+	if rd := sc.bodyReader(); rd != nil {
+		req.Body = rd
 	}
 	_, perr := p(context.Background(), req)
 	switch {
@@ -343,7 +397,7 @@ func caseTerm(sc *scenario, be *config.Backend, o outcome) string {
 }
 
 func (sc *scenario) term(be *config.Backend) string {
-	kind, obj := classifyBody(sc.body)
+	kind, obj := sc.bodyClass()
 	body := kind
 	if kind == "BObject" {
 		body = emit.App("BObject", emit.Obj(obj))
@@ -434,8 +488,8 @@ func (sc *scenario) js() map[string]interface{} {
 	if sc.body != nil {
 		body = hs(*sc.body)
 	}
-	kind, _ := classifyBody(sc.body)
-	return map[string]interface{}{
+	kind, _ := sc.bodyClass()
+	r := map[string]interface{}{
 		"graphql":         map[string]interface{}{"type": sc.typ, "method": sc.method, "query": hs(sc.query), "operationName": hs(sc.name), "variables": hjson(mapOrNil(sc.vars))},
 		"params":          hmap(sc.params),
 		"client_body":     body,
@@ -446,6 +500,13 @@ func (sc *scenario) js() map[string]interface{} {
 		"client_headers":  sc.chdrs,
 		"endpoint_method": sc.epMethod,
 	}
+	if sc.urlPattern != "" {
+		r["url_pattern"] = sc.urlPattern
+	}
+	if sc.fault != nil {
+		r["body_stream"] = map[string]interface{}{"delivers": hs(sc.fault.prefix), "then_fails_with": sc.fault.err.Error()}
+	}
+	return r
 }
 
 func mapOrNil(m map[string]interface{}) interface{} {
@@ -531,13 +592,13 @@ func (g *gen) add(stream string, sc *scenario) {
 	js := sc.js()
 	js["stream"] = stream
 	js["observed"] = o.js()
-	kind, _ := classifyBody(sc.body)
+	kind, _ := sc.bodyClass()
 	g.w.Count("stream:" + stream)
 	g.w.Count("type:" + normType(sc.typ) + "/" + normMethod(sc.method))
 	g.w.Count("outcome:" + o.kind)
 	if normType(sc.typ) == "TMutation" {
 		g.w.Count("body:" + kind)
-		if _, obj := classifyBody(sc.body); obj != nil && inexactNumber(obj) {
+		if _, obj := sc.bodyClass(); obj != nil && inexactNumber(obj) {
 			g.w.Count("body:number-not-a-float64")
 		}
 	}
@@ -575,5 +636,7 @@ func main() {
 	reuseConcurrent(g)
 	concurrentCalls(g)
 	optionSpellings(g)
-	g.w.Close("complete default backend stack (NewDefaultFactory over NewHTTPProxyWithHTTPExecutor, recording executor; received body and URL query decoded with encoding/json / net/url, trees compared): corpus of the recorded defects; exhaustive small scope = 30 variable value shapes x {query,mutation} x {POST,GET} x 4 parameter sets x 2 operation names, and 34 client bodies x 4 default sets x 2 transports; config.Init capitalisation of path parameter names; random configurations (strings over quotes, backslashes, controls, %, U+2028, astral, braces), random and malformed client bodies; arbitrary byte strings (every byte 0x80..0xff, UTF-8 boundary / overlong / surrogate / truncated sequences, random bytes) at 10 places (path parameter, query text, operation name, variable value and name, client body string x transport) and json.Marshal of byte strings against the escape model (every byte, boundary sequences, random); the same stack entered through the gin endpoint handler with the parameters taken from the escaped request path; instance reuse: one stack instance serving sequences of 3-7 different requests (12 fixed orders x 2 transports, random sequences) and 12 goroutines x 150 iterations over 12 distinct requests per configuration, each distinct (request, observation) pair once; concurrent_calls 2..4: every attempt held at the executor until all have arrived, each attempt's request compared; spelling of type and method (case variants, Unicode case mappings onto ASCII, other types and methods) probed through the stack against the model of GetOptions; POST bodies also compared byte for byte with the model's encoder; nontrivial = at least one variable or a mutation", true)
+	embeddedParams(g)
+	bodyFaults(g)
+	g.w.Close("complete default backend stack (NewDefaultFactory over NewHTTPProxyWithHTTPExecutor, recording executor; received body and URL query decoded with encoding/json / net/url, trees compared): corpus of the recorded defects; exhaustive small scope = 30 variable value shapes x {query,mutation} x {POST,GET} x 4 parameter sets x 2 operation names, and 34 client bodies x 4 default sets x 2 transports; config.Init capitalisation of path parameter names; random configurations (strings over quotes, backslashes, controls, %, U+2028, astral, braces), random and malformed client bodies; arbitrary byte strings (every byte 0x80..0xff, UTF-8 boundary / overlong / surrogate / truncated sequences, random bytes) at 10 places (path parameter, query text, operation name, variable value and name, client body string x transport) and json.Marshal of byte strings against the escape model (every byte, boundary sequences, random); the same stack entered through the gin endpoint handler with the parameters taken from the escaped request path; instance reuse: one stack instance serving sequences of 3-7 different requests (12 fixed orders x 2 transports, random sequences) and 12 goroutines x 150 iterations over 12 distinct requests per configuration, each distinct (request, observation) pair once; concurrent_calls 2..4: every attempt held at the executor until all have arrived, each attempt's request compared; spelling of type and method (case variants, Unicode case mappings onto ASCII, other types and methods) probed through the stack against the model of GetOptions; backend url_pattern embedding a path parameter whose value carries #, spaces, quotes, unicode (GET and POST transport); client body streams that fail after a prefix (complete object, cut object, nothing) with io.ErrUnexpectedEOF and other errors; POST bodies also compared byte for byte with the model's encoder; nontrivial = at least one variable or a mutation", true)
 }
